@@ -443,6 +443,12 @@ type recProc struct {
 	hanging   chan struct{}
 	onReorg   func() // witness op x: called inside Reorg, i.e. while the detector waits for ReorgProcessed
 	killReorg chan struct{} // op n: the next Reorg call signals here and never returns (the node is being killed)
+	// op g (graceful stop while a reorg is handed over): the first Reorg call signals gracefulReorg, then (like the next one)
+	// waits for the shutdown signal and fails with ctx.Err() as an ExecContext on a cancelled context does; the third call
+	// closes gracefulGone and never returns (the process has exited by then)
+	gracefulReorg chan struct{}
+	gracefulGone  chan struct{}
+	gracefulCalls int
 }
 
 func (p *recProc) GetLastProcessedBlock(ctx context.Context) (uint64, error) {
@@ -480,6 +486,23 @@ func (p *recProc) Reorg(ctx context.Context, first uint64) error {
 		p.mu.Unlock()
 		close(ch)
 		select {} // killed before processor.Reorg did anything; this goroutine belongs to the dead incarnation
+	}
+	if ch := p.gracefulReorg; ch != nil {
+		p.gracefulCalls++
+		k := p.gracefulCalls
+		gone := p.gracefulGone
+		p.mu.Unlock()
+		if k == 1 {
+			close(ch)
+		}
+		if k <= 2 {
+			<-ctx.Done()
+			return ctx.Err()
+		}
+		if k == 3 {
+			close(gone)
+		}
+		select {}
 	}
 	defer p.mu.Unlock()
 	if p.onReorg != nil {
@@ -939,11 +962,21 @@ func (r *runner) kill() error {
 
 // crashNotify (op n): one tick; if it notifies a reorg the node is killed before processor.Reorg runs, otherwise the
 // tick completes and the node is stopped normally; then a start
-func (r *runner) crashNotify(ferr bool, errAt int) error {
+//
+// graceful (op g): instead of a kill, the shutdown signal (cancellation of the node's context) arrives when processor.Reorg
+// has been entered; Reorg then fails with the context's error. The node is given the time to do whatever it does on that
+// path: the harness waits until either the tick has returned (the subscriber acknowledged the reorg) or the driver is in
+// its third Reorg attempt (it did not), and only then abandons the incarnation and starts a new one.
+func (r *runner) crashNotify(ferr bool, errAt int, graceful bool) error {
 	for attempt := 0; ; attempt++ {
 		entered := make(chan struct{})
+		gone := make(chan struct{})
 		r.proc.mu.Lock()
-		r.proc.killReorg = entered
+		if graceful {
+			r.proc.gracefulReorg, r.proc.gracefulGone, r.proc.gracefulCalls = entered, gone, 0
+		} else {
+			r.proc.killReorg = entered
+		}
 		r.proc.mu.Unlock()
 		r.rdc.arm(ferr, errAt)
 		done := make(chan error, 1)
@@ -952,13 +985,26 @@ func (r *runner) crashNotify(ferr bool, errAt int) error {
 		select {
 		case <-entered:
 			r.out.Kills++
-			if err := r.kill(); err != nil {
+			if graceful {
+				n.cancel() // the shutdown signal
+				select {
+				case <-done: // the subscriber acknowledged: the detector went on (and deleted what it deletes after an acknowledgement)
+				case <-gone: // the driver kept retrying: no acknowledgement; the process is gone
+				case <-time.After(stepTimeout):
+					return r.fail("timeout: graceful stop during the reorg hand-over neither acknowledged nor kept retrying")
+				}
+			}
+			err := r.kill()
+			r.proc.mu.Lock()
+			r.proc.gracefulReorg, r.proc.gracefulGone = nil, nil
+			r.proc.mu.Unlock()
+			if err != nil {
 				return err
 			}
 			return r.start()
 		case err := <-done:
 			r.proc.mu.Lock()
-			r.proc.killReorg = nil
+			r.proc.killReorg, r.proc.gracefulReorg, r.proc.gracefulGone = nil, nil, nil
 			r.proc.mu.Unlock()
 			if err != nil && strings.Contains(err.Error(), "failed to insert reorg event") && attempt < 3 {
 				r.out.PKRetries++
@@ -1036,7 +1082,9 @@ func (r *runner) runLock() error {
 				err = r.start()
 			}
 		case "n":
-			err = r.crashNotify(e.Err, e.ErrAt)
+			err = r.crashNotify(e.Err, e.ErrAt, false)
+		case "g":
+			err = r.crashNotify(e.Err, e.ErrAt, true)
 		case "x":
 			err = r.raceTick(int(e.Head))
 		case "m":
@@ -1333,7 +1381,7 @@ func genLock(rng *hlib.Rng, o lockOpts) In {
 						nfork++
 						emitW()
 					}
-					script = append(script, EvIn{Op: "n"})
+					script = append(script, EvIn{Op: hlib.Pick(rng, "n", "g")})
 					nnotify++
 				} else {
 					script = append(script, EvIn{Op: "r"})
@@ -1482,6 +1530,7 @@ func boundary() []In {
 	add("b:crash-during-notify", []EvIn{p, p, H, {Op: "w", V: 1, Head: 6, Fin: 2}, {Op: "n"}, p, t, p, p, H}, 6, 1)
 	// 12. the same kill, but the node is back on chain A when it starts again: nothing processed is replaced any more,
 	//     the store was never rewound, and no rewind may follow
+	add("b:graceful-stop-during-notify", []EvIn{p, p, H, {Op: "w", V: 1, Head: 6, Fin: 2}, {Op: "g"}, p, t, p, p, H}, 6, 1)
 	add("b:crash-during-notify-fork-undone", []EvIn{p, p, H, {Op: "w", V: 1, Head: 6, Fin: 2}, {Op: "n"}, {Op: "w", V: 0, Head: 7, Fin: 2}, p, t, p, p, H}, 7, 0)
 	return ins
 }
